@@ -1,7 +1,7 @@
 \* the code as it is: Error() consults the context at call time (known finding C06-late-cancel)
 SPECIFICATION Spec
 CONSTANTS
-  MaxPkts = 2
+  MaxPkts = 3
   MaxAttempts = 1
   MaxErrorCalls = 2
   Defects = {"ctxAtErrorTime"}
